@@ -120,6 +120,8 @@ Definition valid_res (o : op) (r : res) : bool :=
   match o, r with
   | (Out _ _ | Log _ _ _), RUnit => true
   | (Out _ _ | Log _ _ _), _ => false
+  (* os.path.exists/lexists/isdir/isfile/islink/ismount, os.access and os.isatty never raise: they answer False *)
+  | (Lexists _ | Exists _ | Isdir _ | Isfile _ | Islink _ | Ismount _ | Access _ | IsAtty), RErr _ => false
   | _, RErr (OSError _) => true
   | Move _ _, RErr ShutilError => true
   | ReadText _, RErr UnicodeDecodeError => true
